@@ -42,7 +42,8 @@ REQUIRED_COUNTERS = ['bs_prod_calls', 'table_cells_checked',
                      'converter_roundtrips', 'measure_syndrome_calls',
                      'uint8_wrap_overlaps_checked',
                      'measure_syndrome_after_deform_of_used_object',
-                     'converter_results_modified_in_place']
+                     'converter_results_modified_in_place',
+                     'arguments_compared_after_the_call']
 EXHAUSTIVE = True
 EXHAUSTIVE_SCOPE = ('bs_prod on all operator pairs for n<=3 (thorough; n<=2 '
                     'plus stacked n=3 in quick) x 9x9 representation pairs x '
@@ -93,6 +94,35 @@ def oracle_table(A, B):
                     dtype=np.int64)
 
 
+def _snap(x):
+    if hasattr(x, 'indptr'):
+        return ('csr', x.shape, x.indptr.tobytes(), x.indices.tobytes(),
+                x.data.tobytes())
+    if isinstance(x, np.ndarray):
+        return ('nd', x.shape, str(x.dtype), x.tobytes())
+    if isinstance(x, list):
+        return ('list', repr(x))
+    return ('other', repr(x))
+
+
+def call_pure(out, name, fn, *args):
+    """Call a bpauli function; its arguments belong to the caller and must
+    read the same afterwards (callers pass cached matrices such as
+    code.logicals_x)."""
+    before = [_snap(a) for a in args]
+    r = fn(*args)
+    out.count('arguments_compared_after_the_call', len(args))
+    for i, (a, b) in enumerate(zip(args, before)):
+        if _snap(a) != b:
+            out.violation(f'converter/{name}/argument-modified',
+                          f'{name} changed its argument {i} '
+                          f'({type(a).__name__}, '
+                          f'{getattr(a, "dtype", "")}) in place',
+                          {'f': name, 'arg': i,
+                           'dtype': str(getattr(a, 'dtype', ''))})
+    return r
+
+
 def check_call(out, A, B, ka, kb, sa, sb, tag):
     """One bs_prod call on representations (ka,sa) x (kb,sb) of A, B."""
     from panqec import bpauli
@@ -107,7 +137,7 @@ def check_call(out, A, B, ka, kb, sa, sb, tag):
             else [int(x) for x in (A.sum(), B.sum(), A.shape[0], B.shape[0])]}
     mech = f'bs_prod/{"sparse" if "csr" in ka + kb else "dense"}'
     try:
-        r = bpauli.bs_prod(a, b)
+        r = call_pure(out, 'bs_prod', bpauli.bs_prod, a, b)
     except Exception as e:
         out.violation(f'{mech}/raises-{type(e).__name__}',
                       f'bs_prod raised {type(e).__name__}: {e}',
@@ -330,7 +360,7 @@ def converter_case(out, s):
             if nm == 'csr' and sp.nnz != len(sp.data):
                 continue
             try:
-                w = bpauli.bsf_wt(rep)
+                w = call_pure(out, 'bsf_wt', bpauli.bsf_wt, rep)
             except Exception as e:
                 bad('bsf_wt', f'{nm}: raised {type(e).__name__}: {e}')
                 continue
@@ -338,14 +368,15 @@ def converter_case(out, s):
             if int(w) != w_ref:
                 bad('bsf_wt', f'{nm}: weight {w} != {w_ref}')
         # integer representation
-        iv = bpauli.bvector_to_int(ref.astype('uint8'))
+        iv = call_pure(out, 'bvector_to_int', bpauli.bvector_to_int,
+                       ref.astype('uint8'))
         ref_int = int(''.join(str(int(b)) for b in ref), 2)
         out.count('converter_roundtrips')
         if iv != ref_int:
             bad('bvector_to_int', f'{iv} != {ref_int}')
         eq('int_to_bvector', bpauli.int_to_bvector(ref_int, n), ref)
-        ints = bpauli.bvectors_to_ints([ref.astype('uint8'),
-                                        ref.astype('uint8')])
+        ints = call_pure(out, 'bvectors_to_ints', bpauli.bvectors_to_ints,
+                         [ref.astype('uint8'), ref.astype('uint8')])
         if list(ints) != [ref_int, ref_int]:
             bad('bvectors_to_ints', f'{ints}')
         bv = bpauli.ints_to_bvectors([ref_int, 0], n)
@@ -396,8 +427,10 @@ def brank_case(out, rng, m, n2, density):
     ref = gf2.rank(gf2.pack_rows(M))
     desc = {'f': 'brank', 'm': m, 'cols': n2, 'ones': int(M.sum())}
     out.case(desc, bool(M.any()))
-    for rep, nm in ((M, 'dense'), (csr_matrix(M), 'csr')):
-        r = bpauli.brank(rep)
+    for rep, nm in ((M.copy(), 'dense'), (csr_matrix(M), 'csr'),
+                    (M.astype(np.int64), 'dense-int64'),
+                    (M.astype(bool), 'dense-bool')):
+        r = call_pure(out, 'brank', bpauli.brank, rep)
         out.count('converter_roundtrips')
         if r != ref:
             out.violation(f'converter/brank/{nm}', f'brank={r}, rank={ref}',
@@ -424,8 +457,10 @@ def deformation_case(out, rng, n):
         out.case(desc, bool(idx.any() and v.any()))
         out.count('converter_roundtrips')
         try:
-            got = bpauli.apply_deformation(mask, v.copy())
-            gotM = bpauli.apply_deformation(mask, M.copy())
+            got = call_pure(out, 'apply_deformation',
+                            bpauli.apply_deformation, mask, v.copy())
+            gotM = call_pure(out, 'apply_deformation',
+                             bpauli.apply_deformation, mask, M.copy())
         except Exception as e:
             from pv.common import panqec_frame
             if panqec_frame(e) is None:
